@@ -44,6 +44,35 @@ pub fn collect(tier: &str, caps: &Caps, rep: &Report) -> Vec<In> {
         let st = explore(|ctx| sp.gen(ctx), b, caps, |ch, c| push("c16/combo", ch, c.tags.clone(), c.input.clone()));
         rep.add_stats("c16/combo(2,curated)", &format!("dev({})", b.unwrap()), &st);
     }
+    {
+        // chains of trait-level repeat() templates (several live templates, followers with and without parameters)
+        use super::Space;
+        for enum_host in [false, true] {
+            let sp = super::c14::TraitRep { max_instr: 3, enum_host };
+            let b = if tier == "quick" { Some(5) } else { Some(6) };
+            let st = explore(|ctx| sp.gen(ctx), b, caps, |ch, c| push("c14/trait-repeat", ch, c.tags.clone(), c.with_repeat.render()));
+            rep.add_stats(&format!("c14/trait-repeat({})", if enum_host { "enum" } else { "struct" }), &format!("dev({})", b.unwrap()), &st);
+        }
+    }
+    {
+        // two live repeat() templates of every pair of instruction names + a follower of every name, for each kind of
+        // repeated parameter: which template (if any) reaches the follower must not depend on container order
+        let names = ["from_owned", "owned_into", "map_owned", "from", "into", "map", "from_ref", "try_from_owned"];
+        let mut n = 0u32;
+        for t1 in names {
+            for t2 in names {
+                for fo in names {
+                    for (pi, (p1, p2)) in [("vars(k: { 1 })", "vars(k: { 2 })"), ("return make(1)", "return make(2)"), ("..base1()", "..base2()")].iter().enumerate() {
+                        let er = |n: &str| if n.starts_with("try_") { ", Er" } else { "" };
+                        let src = format!("#[{t1}(A{}| repeat(), {p1})]\n#[{t2}(B{}| repeat(), {p2})]\n#[{fo}(C{})]\nstruct S {{ a: i32 }}\n", er(t1), er(t2), er(fo));
+                        push("repeat-templates", &[n, pi as u32], vec![format!("t1={}", t1), format!("t2={}", t2), format!("follower={}", fo)], src);
+                        n += 1;
+                    }
+                }
+            }
+        }
+        rep.add_stats("repeat-templates", "full (8 x 8 x 8 names x 3 parameter kinds)", &crate::explore::ExploreStats { leaves: n as u64, transitions: n as u64, ..Default::default() });
+    }
     let mut ins = ins.into_inner().unwrap();
     ins.sort_by(|a, b| (&a.space, &a.choices).cmp(&(&b.space, &b.choices)));
     let mut seen = std::collections::HashSet::new();
@@ -116,10 +145,40 @@ pub fn run(tier: &str) -> i32 {
     let mine: Vec<String> = { use rayon::prelude::*; ins.par_iter().map(|i| render(&expand(&i.src))).collect() };
     let mine2: Vec<String> = { use rayon::prelude::*; ins.par_iter().rev().map(|i| render(&expand(&i.src))).collect::<Vec<_>>().into_iter().rev().collect() };
     let me = std::env::current_exe().unwrap();
+    // 3. which environment variables does an expansion READ?  libc's getenv is interposed (LD_PRELOAD) in one run over all
+    //    inputs and in one run over no input; a name read only in the former is read by the expansion itself.
+    match trace_getenv(&me, &dir, &inp) {
+        Ok(names) => {
+            rep.put("getenv_traced", json!(true));
+            for n in names {
+                let mut fl = super::fail("environment", &[], &ins[0].src, &[], "reads-environment", format!("expanding the inputs reads the environment variable `{}`", n));
+                fl.expected = "no environment variable is consulted while expanding".into();
+                rep.fail(fl);
+            }
+        }
+        Err(e) => {
+            rep.put("getenv_traced", json!(false));
+            rep.assume(&format!("environment reads could not be traced ({}); environment independence rests on the three environment profiles of the fresh-process runs only", e));
+        }
+    }
     let mut proc_outs: Vec<Vec<String>> = vec![];
     for p in 0..k_proc {
         let o = format!("{}/p{}.jsonl", dir, p);
-        let st = std::process::Command::new(&me).args(["expand-file", &inp, &o]).status();
+        // the fresh processes also differ in their ENVIRONMENT: inherited | empty | a cargo-like one with odd values
+        let mut cmd = std::process::Command::new(&me);
+        cmd.args(["expand-file", &inp, &o]);
+        match p % 3 {
+            1 => {
+                cmd.env_clear();
+            }
+            2 => {
+                for (k, v) in HOSTILE_ENV {
+                    cmd.env(k, v);
+                }
+            }
+            _ => {}
+        }
+        let st = cmd.status();
         if !matches!(st, Ok(s) if s.success()) {
             eprintln!("MACHINERY-ERROR: fresh-process run failed");
             return 2;
@@ -174,6 +233,62 @@ pub fn run(tier: &str) -> i32 {
     }
     rep.put("fresh_processes", json!(k_proc));
     rep.finish()
+}
+
+const HOSTILE_ENV: &[(&str, &str)] = &[
+    ("CARGO_PKG_NAME", "o2o"), ("CARGO_CRATE_NAME", "o2o"), ("CARGO_PKG_VERSION", "9.9.9"), ("CARGO_MANIFEST_DIR", "/nonexistent/o2o"), ("CARGO_PRIMARY_PACKAGE", "1"),
+    ("CARGO", "/nonexistent/cargo"), ("CARGO_CFG_TARGET_OS", "none"), ("CARGO_FEATURE_SYN2", "1"), ("OUT_DIR", "/nonexistent/out"), ("PROFILE", "release"), ("DEBUG", "false"),
+    ("OPT_LEVEL", "3"), ("TARGET", "x"), ("HOST", "y"), ("RUSTC", "/nonexistent/rustc"), ("RUSTFLAGS", "--cfg o2o_whatever"), ("RUST_LOG", "trace"), ("O2O_DEBUG", "1"), ("O2O", "1"),
+    ("HOME", "/nonexistent"), ("USER", "nobody"), ("LANG", "tr_TR.UTF-8"), ("LC_ALL", "tr_TR.UTF-8"), ("TZ", "Pacific/Kiritimati"), ("SOURCE_DATE_EPOCH", "0"), ("TERM", "dumb"),
+    ("NO_COLOR", "1"), ("DOCS_RS", "1"), ("CI", "true"), ("PWD", "/nonexistent"),
+];
+
+const GETENV_SHIM: &str = r#"
+#define _GNU_SOURCE
+#include <dlfcn.h>
+#include <string.h>
+#include <unistd.h>
+#include <fcntl.h>
+static char *(*real_getenv)(const char *) = 0;
+char *getenv(const char *name) {
+    if (!real_getenv) real_getenv = dlsym(RTLD_NEXT, "getenv");
+    const char *log = real_getenv("O2OV_GETENV_LOG");
+    if (log && name) {
+        int fd = open(log, O_WRONLY | O_APPEND | O_CREAT, 0644);
+        if (fd >= 0) { write(fd, name, strlen(name)); write(fd, "\n", 1); close(fd); }
+    }
+    return real_getenv(name);
+}
+"#;
+
+/// names of environment variables read while expanding the inputs (and not by the bare process)
+fn trace_getenv(me: &std::path::Path, dir: &str, inp: &str) -> Result<Vec<String>, String> {
+    let c = format!("{}/getenv_shim.c", dir);
+    let so = format!("{}/getenv_shim.so", dir);
+    std::fs::write(&c, GETENV_SHIM).map_err(|e| e.to_string())?;
+    let cc = std::process::Command::new("cc").args(["-shared", "-fPIC", "-o", &so, &c, "-ldl"]).output().map_err(|e| format!("cc: {}", e))?;
+    if !cc.status.success() {
+        return Err("cc could not build the getenv shim".into());
+    }
+    let empty = format!("{}/empty.jsonl", dir);
+    std::fs::write(&empty, "").map_err(|e| e.to_string())?;
+    let mut sets: Vec<std::collections::BTreeSet<String>> = vec![];
+    for (i, input) in [empty.as_str(), inp].iter().enumerate() {
+        let log = format!("{}/getenv{}.log", dir, i);
+        let out = format!("{}/getenv{}.out", dir, i);
+        let st = std::process::Command::new(me).args(["expand-file", input, &out]).env("LD_PRELOAD", &so).env("O2OV_GETENV_LOG", &log).status().map_err(|e| e.to_string())?;
+        if !st.success() {
+            return Err("traced run failed".into());
+        }
+        sets.push(std::fs::read_to_string(&log).unwrap_or_default().lines().map(|l| l.to_string()).collect());
+    }
+    // self-test: the shim must have seen the runtime's own reads in the bare run, else it is not live
+    if sets[0].is_empty() {
+        return Err("the shim saw no getenv call at all (not live)".into());
+    }
+    // a panicking expansion consults the backtrace switches through the panic machinery, not through o2o
+    let allow = ["RUST_BACKTRACE", "RUST_LIB_BACKTRACE"];
+    Ok(sets[1].difference(&sets[0]).filter(|n| !allow.contains(&n.as_str())).cloned().collect())
 }
 
 pub fn replay(f: &Failure) -> i32 {
